@@ -35,6 +35,21 @@ def model_path():
     return None
 
 
+def corpus_cases(prop):
+    """the minimised cases under corpus/<prop>/ (vlib runs them in the main build; the checks' second
+    builds run them too)"""
+    out = []
+    d = os.path.join(vlib.VERIF, 'corpus', prop)
+    if os.path.isdir(d):
+        for fn in sorted(os.listdir(d)):
+            with open(os.path.join(d, fn)) as f:
+                for line in f:
+                    line = line.rstrip('\n')
+                    if line and not line.startswith('//'):
+                        out.append(line)
+    return out
+
+
 def hx(bs):
     return ''.join('%02x' % b for b in bs) or '-'
 
@@ -72,6 +87,7 @@ def calibrate(exe):
         for (p, fl) in combos:
             f.write('calib re=- ; calib %s %d\n' % (p, fl))
     res, det = vlib.run_cases(exe, path, len(combos))
+    os.remove(path)
     table = []
     for (p, fl), r in zip(combos, res):
         m = re.match(r'^(-?\d+)/', r or '')
@@ -322,6 +338,7 @@ def run_model_lines(exe, lines, tag):
         for ln in lines:
             f.write(ln + '\n')
     res, info = vlib.run_model(exe, path, len(lines))
+    os.remove(path)
     return res
 
 
